@@ -731,6 +731,42 @@ static void run_gen_rst(unsigned f, size_t cap0, size_t cnt0, size_t capacity, s
 	}
 }
 
+// ---- generated HashSet / TreeSet ::pvExtraCheck (Gen_XCheckH.v / Gen_XCheckT.v): the REAL private member on a real container of 40 keys whose
+//      hash / less functor throws (f = 1) or has become inconsistent with the one used at insertion (mode = 1: the honest answer is false) ------
+static int g_xc_mode = 0; static bool g_xc_throw = false;
+struct XcHashTraits : public momo::HashTraits<int>
+{
+	size_t GetHashCode(const int& k) const { if (g_xc_throw) throw 1; return g_xc_mode ? size_t(k) * 0x9E3779B97F4A7C15ull + 12345 : size_t(k); }
+};
+struct XcTreeTraits : public momo::TreeTraits<int>
+{
+	bool IsLess(const int& a, const int& b) const { if (g_xc_throw) throw 1; return g_xc_mode ? b < a : a < b; }
+};
+static void run_gen_xc(const std::string& kind, unsigned f, unsigned mode)
+{
+	g_xc_mode = 0; g_xc_throw = false;
+	bool r;
+	if (kind == "h")
+	{
+		momo::HashSet<int, XcHashTraits> set;
+		for (int i = 0; i < 40; ++i) set.Insert(i);
+		auto pos = set.Find(5);
+		g_xc_mode = int(mode); g_xc_throw = (f == 1);
+		r = set.pvExtraCheck(pos);
+		g_xc_mode = 0; g_xc_throw = false;
+	}
+	else
+	{
+		momo::TreeSet<int, XcTreeTraits> set;
+		for (int i = 0; i < 40; ++i) set.Insert(i);
+		auto iter = set.Find(5);
+		g_xc_mode = int(mode); g_xc_throw = (f == 1);
+		r = set.pvExtraCheck(iter);
+		g_xc_mode = 0; g_xc_throw = false;
+	}
+	printf("check=%d\n", int(r));
+}
+
 int main()
 {
 	g_arena = static_cast<char*>(std::malloc(ARENA));
@@ -739,6 +775,11 @@ int main()
 	{
 		std::istringstream is(line); std::string mech, cat; size_t n = 0; long k = -1;
 		is >> mech >> cat >> n >> k;
+		if (mech == "genxc")
+		{	// genxc - 0 0 <h|t> <f 0|1> <mode 0|1>
+			std::string kind; unsigned f = 0, mode = 0; is >> kind >> f >> mode;
+			run_gen_xc(kind, f, mode); fflush(stdout); continue;
+		}
 		if (mech == "genrst")
 		{	// genrst - 0 0 rst <f 0|1|2> <cap0> <cnt0> <capacity> <count> <w> <v>
 			std::string op; unsigned f = 0, w = 0; size_t cap0 = 0, cnt0 = 0, capacity = 0, count = 0; uint64_t v = 0;
